@@ -10,7 +10,7 @@
    on the table of its engine.  I = the transcribed fast path is evaluated for classification. *)
 From Coq Require Import List ZArith NArith Bool.
 Import ListNotations.
-From Verif.C20 Require Import Model.
+From Verif.C20 Require Export Model.
 Open Scope Z_scope.
 
 Inductive op := OExec | OTest | OMatch | OMatchAll | OReplace | OSearch | OSplit (lim : option Z).
@@ -18,8 +18,9 @@ Inductive ores := OK (r : res) | Err (e : N).
 
 Inductive tcase :=
 | CRun (fl : flags) (ncap : N) (names : list (N * str)) (subj : str) (start : Z) (ops : list op)
-       (engA engB : engine) (tabA tabB : list (option mres))
-       (obs : list (list (ores * Z)))
+       (engA engB : engine)
+       (ents : list (option mres)) (iA iB : list nat)     (* distinct table entries; tables as index lists *)
+       (obsd : list (list (ores * Z))) (oi : list nat)    (* distinct observation lists; the 4 configurations *)
 | CFlags (fs : list N) (accepted : bool) (clean : bool)
 | CSyntax (bad : bool) (errA errB : N)      (* 0 = constructed, 3 = SyntaxError *)
 | CFail.
@@ -114,6 +115,8 @@ Definition tabs_eqb (a b : list (option mres)) : bool := list_eqb (opt_eqb mres_
 
 Definition nth_obs (obs : list (list (ores * Z))) (k : nat) : list (ores * Z) := nth k obs [].
 
+Definition expand {A} (d : A) (ents : list A) (idx : list nat) : list A := map (fun i => nth i ents d) idx.
+
 Definition bit (b : bool) (k : N) : N := if b then N.shiftl 1 k else 0%N.
 
 (* classification bits of a run case:
@@ -123,7 +126,9 @@ Definition bit (b : bool) (k : N) : N := if b then N.shiftl 1 k else 0%N.
    8 A-fast = I(A)  (the transcribed fast path reproduces it)             9 B-fast = I(B)     *)
 Definition classify (c : tcase) : N :=
   match c with
-  | CRun fl ncap names s start ops eA eB tA tB obs =>
+  | CRun fl ncap names s start ops eA eB ents iA iB obsd oi =>
+      let tA := expand None ents iA in let tB := expand None ents iB in
+      let obs := expand [] obsd oi in
       let u := fu fl in
       let o0 := nth_obs obs 0 in let o1 := nth_obs obs 1 in
       let o2 := nth_obs obs 2 in let o3 := nth_obs obs 3 in
@@ -161,7 +166,8 @@ Definition mismatch_ids := mismatch_from 0%N.
 (* what the model says: (classification code, S on A's table, S on B's table, I for A, I for B) *)
 Definition expected (c : tcase) :=
   match c with
-  | CRun fl ncap names s start ops eA eB tA tB obs =>
+  | CRun fl ncap names s start ops eA eB ents iA iB obsd oi =>
+      let tA := expand None ents iA in let tB := expand None ents iB in
       (classify c, [run_S tA fl s start ops; run_S tB fl s start ops;
                     run_I eA tA fl s start ops; run_I eB tB fl s start ops])
   | CFlags fs _ _ => (classify c, [[(OK (RB (valid_flags fs)), 0)]; [(OK (RB (goja_accepts_flags fs)), 0)]])
